@@ -260,6 +260,7 @@ type c05Call struct {
 	// expectFail: the call's own token reader fails part of the way through; the call must fail, and must not disturb
 	// the elements of the calls that succeed
 	expectFail bool
+	anyOutcome bool // … or may fail or not: only what follows it is checked
 	twin       *c05Call // SendElement-twice: the second call made with the very same start element value
 	alt        *xSpec   // EncodeElement: the value's own encoding (what goes out if the supplied start is ignored)
 }
@@ -477,7 +478,7 @@ func runC05(rc *RC) {
 	kinds := []string{"Send", "SendElement", "Encode", "EncodeElement", "SendIQElement", "SendMessageElement", "SendPresenceElement", "EncodeIQ", "SendIQ-get", "TokenWriter", "Encode", "Send"}
 	if ch.Chance("workload", 1, 3) {
 		// callers whose own payload reader fails half way, and callers that use one start element value for two calls
-		kinds = append(kinds, "Send-failing-reader", "SendElement-failing-reader", "SendElement-twice", "SendElement-nameless-start", "Encode-failing-marshaler", "Send-mismatched-end")
+		kinds = append(kinds, "Send-failing-reader", "SendElement-failing-reader", "SendElement-twice", "SendElement-nameless-start", "Encode-failing-marshaler", "Send-mismatched-end", "SendElement-stray-end")
 	}
 	var calls []*c05Call
 	var plans [][]*c05Call
@@ -602,6 +603,19 @@ func runC05(rc *RC) {
 			} else {
 				c.expectFail = false
 			}
+		case "SendElement-stray-end":
+			// the payload handed to SendElement still has the element's own end tag at its end (the caller forgot to strip
+			// it): whether the call fails or not, it is this call's affair - what is transmitted afterwards is complete
+			c.spec = genSpec(rc, e.NS, c.marker, false, false)
+			c.expectFail, c.anyOutcome = true, true
+			var toks []xml.Token
+			c.spec.kidTokens(&toks)
+			toks = append(toks, c.spec.start().End())
+			if ch.Chance("workload", 1, 3) {
+				toks = append(toks, c.spec.start().End()) // … or two of them
+			}
+			c.err = s.SendElement(ctx, &yieldReader{toks: toks}, c.spec.start())
+			rc.Fire("stray-end-tag")
 		case "SendElement-nameless-start":
 			// a start element without a name cannot be written: the call fails, and that is all
 			c.spec = genSpec(rc, e.NS, c.marker, false, false)
@@ -951,7 +965,7 @@ func runC05(rc *RC) {
 	for _, c := range calls {
 		if c.expectFail {
 			rc.Evals["C05.c2"]++
-			if c.done && c.err == nil {
+			if c.done && c.err == nil && !c.anyOutcome {
 				rc.Failf("C05.c2", "reader-error-swallowed:"+c.kind, "%s(%s): the payload reader failed but the call returned nil", c.kind, c.marker)
 			}
 			continue
